@@ -312,6 +312,27 @@ def dyadic_sample(rng, n, shape):
     return delta, [float(q) for q in zs]
 
 
+
+def structure_stable(zs, delta, min_nz):
+    """does the grid of get_pred have the same number of distinct nodes when computed in double arithmetic and exactly (on the same
+    doubles)?  Harness-side choice of inputs; neither computation is the implementation."""
+    def lin(a, b, n, one):
+        if n == 0:
+            return []
+        if n == 1:
+            return [a]
+        step = (b - a) / (n - 1)
+        return [i * step + a for i in range(n - 1)] + [b]
+    zf = [float(z) for z in zs]
+    nf = math.ceil((max(zf) - min(zf)) / delta)
+    gf = set(lin(1.0, min(zf), min_nz, 1.0) + lin(min(zf) + delta, max(zf) + delta, nf, 1.0) + zf)
+    ze = [Fraction(z) for z in zf]
+    de = Fraction(delta)
+    ne = math.ceil((max(ze) - min(ze)) / de)
+    ge = set(lin(Fraction(1), min(ze), min_nz, 1) + lin(min(ze) + de, max(ze) + de, ne, 1) + ze)
+    return nf == ne and len(gf) == len(ge)
+
+
 def float_sample(rng, n, shape, lo=1.01, hi=3.3):
     base = sorted({round(rng.uniform(lo, hi), rng.choice([3, 5, 17])) for _ in range(n)})
     if "siblings" in shape:
@@ -469,9 +490,16 @@ def correspondence(ctx):
         for shape in SHAPES + (["siblings-unsorted"] if n >= 7 else []):
             if n == 1 and shape != "sorted":
                 continue
-            zs = float_sample(rng, n, shape)
-            if rng.random() < 0.3:
-                zs[rng.randrange(len(zs))] = 1.0          # datum exactly 1: dL = 0, mu = -inf
+            for _try in range(50):
+                zs = float_sample(rng, n, shape)
+                if rng.random() < 0.3:
+                    zs[rng.randrange(len(zs))] = 1.0          # datum exactly 1: dL = 0, mu = -inf
+                # The grid is built in DOUBLE arithmetic; the model computes it exactly on the same doubles.  Float rounding is
+                # validated, not modelled, so samples on which rounding changes the STRUCTURE of the grid are not used for the
+                # comparison: the node count ceil((zmax - zmin)/delta_z) (zmin = 1, zmax = 3.2: the double quotient is 110.0, the
+                # exact one 110.0000000000000066), or a datum that equals a grid node as a double but not exactly (1.02 vs 1 + 0.02).
+                if structure_stable(zs, delta_real, min_nz):
+                    break
             fam = rng.choice(fams)
             jobs.append({"tag": "real-delta/%d/%s" % (n, shape), "delta": hx(delta_real), "min_nz": min_nz, "tol": "(1 # 1000000000000)",
                          "calls": [predcall(zs, fam, params_for(rng, fam))], "kind": "float", "shape": shape, "n": n})
